@@ -4,7 +4,7 @@ package main
 //   dest-old-or-new      the destination shows the complete previous state or the complete new content
 //   only-temp-strays     everything else that changed is a temporary entry in a temporary location
 //   fsync-before-rename  (trace) the temp file is synced after its last write and before the publishing rename
-//   no-inplace-write     (trace) the destination path/inode is never opened for writing, written or truncated
+//   no-inplace-write     (trace) the destination path/inode is never opened for writing, written, truncated or unlinked
 
 import (
 	"bytes"
@@ -383,6 +383,9 @@ func traceObligations(ot *OpTrace, ex *Expect, opOK bool) []Problem {
 			out = append(out, Problem{"no-inplace-write", "dest-opened-for-writing", fmt.Sprintf("line %d: %s(%s, %s)", c.Line, c.Name, "<dest>", c.Flags)})
 		case isContentWrite(c.Name) && c.Path == dest:
 			out = append(out, Problem{"no-inplace-write", "dest-written", fmt.Sprintf("line %d: %s on the destination file", c.Line, c.Name)})
+		case (c.Name == "unlink" || c.Name == "unlinkat" || c.Name == "rmdir") && c.Path == dest && !c.failed():
+			// after it the destination path shows neither the previous state nor the new content
+			out = append(out, Problem{"no-inplace-write", "dest-unlinked", fmt.Sprintf("line %d: %s(<dest>) removes the destination before the new content is renamed into place", c.Line, c.Name)})
 		case c.Name == "truncate" && c.Path == dest:
 			out = append(out, Problem{"no-inplace-write", "dest-truncated", fmt.Sprintf("line %d: truncate(<dest>)", c.Line)})
 		}
